@@ -15,6 +15,9 @@ impl Decoder for KvDecoder {
 	fn num_frames(&self) -> usize { KV_N }
 	fn decode(&mut self) -> Result<Vec<Frame>, ()> {
 		unsafe { KV_DECODES += 1; }
+		// a scheduler that keeps asking a decoder that has nothing left would spin forever (a pure non-termination has no
+		// concrete trace, so it is turned into an assertion that replays)
+		assert!(unsafe { KV_DECODES } <= (KV_N as u32) + 2, "the scheduler keeps decoding past the end of the audio: its thread would never end");
 		if self.fail_next { return Err(()); }
 		let mut v = Vec::with_capacity(self.packet);
 		let mut k = 0;
@@ -90,15 +93,15 @@ fn kv_random_access_body(packet: usize, granularity: usize) {
 	std::mem::forget(p);
 }
 
-// @h prop=C09,C18 tier=quick kind=main timeout=900
+// @h prop=C09,C18,C10 tier=quick kind=main timeout=900
 // @bounds packet size 2, seek granularity 2 (seeks land on even frames, at or before the request); 5-frame stream; scheduler in ANY consistent state (decoder position, cached packet present or not); any requested index 0..6
 // @funcs DecodeScheduler::frame_at_index, DecodedChunk::frame_at_index
-// @catches the scheduler trusting the REQUESTED seek index instead of where the decoder actually landed (frames then come out shifted after every backwards seek / loop wrap); cached packet misindexed; wrong frame after skipping forwards
+// @catches the scheduler trusting the REQUESTED seek index instead of where the decoder actually landed (frames then come out shifted after every backwards seek / loop wrap); cached packet misindexed; wrong frame after skipping forwards; the frame AT the end of the audio requested from the decoder instead of answered with silence (the decode loop then never ends)
 #[kani::proof]
 #[kani::unwind(8)]
 fn c09_scheduler_random_access_packet2_granularity2() { kv_random_access_body(2, 2); }
 
-// @h prop=C09,C18 tier=quick kind=main timeout=900
+// @h prop=C09,C18,C10 tier=quick kind=main timeout=900
 // @bounds packet size 1, seek granularity 3; otherwise as above
 // @funcs DecodeScheduler::frame_at_index
 #[kani::proof]
